@@ -235,8 +235,12 @@ impl<'a, D: DependencyProvider> Encoder<'a, D> {
             })
         {
             // If the dependencies are already available for the
-            // candidate, queue the candidate for processing.
-            if self.cache.are_dependencies_available_for(candidate) {
+            // candidate, queue the candidate for processing. A candidate that
+            // has already been decided not to be installed is skipped: its
+            // clauses are added if and when it is selected after all.
+            if self.cache.are_dependencies_available_for(candidate)
+                && self.state.decision_tracker.assigned_value(candidate_var) != Some(false)
+            {
                 self.queue_solvable(candidate.into())
             }
 
